@@ -16,7 +16,14 @@ Fixpoint replay_C11 (st : ostate) (ops : list sop) (blocks : list (Z * replica))
   | [], [] => true
   | o :: ops', (_, r) :: blocks' =>
       let st' := observe (op_peer o) r st in
-      stays_deleted (get_seen (op_peer o) st') r && refs_stay_deleted (get_eseen (op_peer o) st') r && replay_C11 st' ops' blocks'
+      stays_deleted (get_seen (op_peer o) st') r && refs_stay_deleted (get_eseen (op_peer o) st') r &&
+      (* a pull that exchanged the day of a deletion record the source showed leaves the receiver with that record *)
+      (match o with
+       | Pull d s days =>
+           forallb (fun t => negb (existsb (Z.eqb (day (t_ddate t))) days) || has_tomb (tombs r) t) (tombs (get s (o_sys st))) &&
+           forallb (fun t => negb (existsb (Z.eqb (day (et_ddate t))) days) || has_etomb (etombs r) t) (etombs (get s (o_sys st)))
+       | _ => true
+       end) && replay_C11 st' ops' blocks'
   | _, _ => false
   end.
 Fixpoint final_state (st : ostate) (ops : list sop) (blocks : list (Z * replica)) : ostate :=
